@@ -71,3 +71,21 @@ Proof.
     rewrite cnt_app in Ho. pose proof (cnt_nonneg O a o Na). rewrite Ca in H. lia.
 Qed.
 End P.
+
+(* link to C05: zero_fill never alters the distribution - its result is == to the original histogram *)
+From Dyce Require Import Model.Equality Proofs.EqualityP.
+Section Z.
+Context {T : Type} (O : ord T).
+Theorem zero_fill_heq (h : hist T) outs : wf O h -> wf O (zero_fill O h outs) /\ heq O (zero_fill O h outs) h = true.
+Proof.
+  intros Hw. destruct (zero_fill_spec O h outs) as (Hc & Ht & _).
+  assert (Hw' : wf O (zero_fill O h outs)).
+  { split.
+    - unfold zero_fill. apply (accumulate_spec O h _).
+    - unfold zero_fill, accumulate. apply nonneg_mk. intros oc Hin. apply in_app_or in Hin. destruct Hin as [Hin|Hin].
+      + destruct Hw as [_ Hn]. apply Hn. exact Hin.
+      + pose proof (nonneg_mk O (map (fun o => (o, 0)) outs)) as Hz.
+        apply Hz; [|exact Hin]. intros oc' Hin'. apply in_map_iff in Hin'. destruct Hin' as (o & <- & _). cbn. lia. }
+  split; [exact Hw'|]. apply heq_cnt_ext; assumption.
+Qed.
+End Z.
